@@ -13,6 +13,7 @@ import json
 import os
 import re
 import shutil
+import signal
 import subprocess
 import sys
 import tempfile
@@ -130,6 +131,16 @@ class TLCResult(object):
         return cov
 
 
+def _die_with_parent():
+    """(in the child, before exec) ask the kernel to kill this process when the check that started it dies - a check killed by
+    the OOM killer or by a timeout must not leave model checkers behind that load the machine for the next one"""
+    try:
+        import ctypes
+        ctypes.CDLL('libc.so.6', use_errno=True).prctl(1, signal.SIGKILL)      # PR_SET_PDEATHSIG
+    except Exception:
+        pass
+
+
 def run_tlc(module, cfg, workdir=None, workers=None, env=None, extra=(), timeout=1800,
             heap='4g', simulate=None, depth=None, coverage=False):
     """run TLC on specs/<module>.tla with config file `cfg` (absolute path or relative to specs/)"""
@@ -154,7 +165,7 @@ def run_tlc(module, cfg, workdir=None, workers=None, env=None, extra=(), timeout
         e.update(env)
     t0 = time.time()
     try:
-        p = subprocess.run(cmd, cwd=SPECS, env=e, capture_output=True, text=True, timeout=timeout)
+        p = subprocess.run(cmd, cwd=SPECS, env=e, capture_output=True, text=True, timeout=timeout, preexec_fn=_die_with_parent)
     except subprocess.TimeoutExpired:
         raise MachineryError('TLC timed out after %ss on %s / %s' % (timeout, module, cfg))
     finally:
